@@ -25,13 +25,12 @@
 // Known findings are kept OUT of the random stream by construction (they would end the process on most cases and hide
 // everything else); their minimal triggers are corpus/C02/parse-known-*.ops:
 //   * micro codec (F8, not hardened at all): the random stream gives the micro parser VALID encodings only (every
-//     generated sample and its nested forms); truncations/corruptions for it live in the corpus, one per call site;
-//   * mini codec, MINI-UNTERMINATED: MMUnflattenMessage copies a string item of any declared length without looking for its
-//     NUL terminator, so a hostile buffer yields "strings" that are not terminated inside their MByteBuffer; the stream
-//     hands the mini codec no HOSTILE input that contains the four bytes of B_STRING_TYPE (valid encodings with strings
-//     are still parsed); triggers: corpus/C02/parse-known-mini-unterminated.ops;
-//   * mini codec (rest of F15): recursion without bound — the stream nests mini inputs at most 300 deep;
-//     5 000 / 30 000 / 200 000 levels are in the corpus.
+//     generated sample and its nested forms); truncations/corruptions for it live in the corpus, one per call site.
+// Repaired in /repo (regression inputs in corpus/C02/parse-regress-*.ops; the stream contains their input classes again):
+//   * mini codec, MINI-UNTERMINATED: MMUnflattenMessage now rejects a string item of length 0 or without NUL terminator —
+//     every hostile input goes to the mini codec, string type code or not;
+//   * mini codec, rest of F15: MMUnflattenMessage now bounds the nesting (MUSCLE_MAX_MESSAGE_NESTING_DEPTH) — the mini
+//     parser gets the same 5 000- and 30 000-level inputs as the C++ parser.
 #define main msg_cpp_main_unused
 #include "msg.cpp"          // the random-Message builder (generator only) is reused
 #undef main
@@ -132,17 +131,8 @@ struct ParseEngine : public Engine
       for (size_t i=0; i<pending.size(); i++) {fputs(pending[i].c_str(), out); fputc('\n', out);}
       pending.clear();
    }
-   static bool containsStringTypeCode(const std::vector<uint8_t> & b)
+   void emitParse(FILE * out, int parsers, const std::vector<uint8_t> & b)
    {
-      for (size_t i=0; i+4<=b.size(); i++) if (get32(b, i) == (uint32_t)B_STRING_TYPE) return true;
-      return false;
-   }
-   // valid = (b) is an unmodified valid encoding
-   void emitParse(FILE * out, int parsers, const std::vector<uint8_t> & b, bool valid = false)
-   {
-      // known finding MINI-UNTERMINATED (see top): no HOSTILE input that carries the string type code goes to the mini codec
-      if ((!valid)&&(parsers & P_MINI)&&(containsStringTypeCode(b))) parsers &= ~P_MINI;
-      if (parsers == 0) return;
       const std::string h = hexOf(b);
       if (parsers & P_CPP)   pending.push_back("parse cpp " + h);
       if (parsers & P_MINI)  pending.push_back("parse mini " + h);
@@ -198,7 +188,7 @@ struct ParseEngine : public Engine
       const int HOSTILE = P_CPP | P_MINI | (getenv("PARSE_GEN_MICRO_HOSTILE") ? P_MICRO : 0);
       uint32_t k = 0;
       #define PYBIT ((pyEvery)&&((k++ % pyEvery) == 0) ? P_PY : 0)
-      emitParse(out, HOSTILE | P_MICRO | P_PY, enc, true);                                 // the valid encoding itself (micro: valid inputs only)
+      emitParse(out, HOSTILE | P_MICRO | P_PY, enc);                                       // the valid encoding itself (micro: valid inputs only)
       for (size_t n=0; n<enc.size(); n++) {std::vector<uint8_t> t(enc.begin(), enc.begin()+n); emitParse(out, HOSTILE | PYBIT, t);}      // (i) every truncation
       std::vector<uint32_t> words; collectWords(enc, 0, enc.size(), words);
       for (size_t w=0; w<words.size(); w++)                                                 // (ii) every structural word := every boundary value / type code
@@ -230,7 +220,7 @@ struct ParseEngine : public Engine
          sweep(r, out, small, true, 9);
          encs.push_back(big); encs.push_back(small);
          // valid inputs for the micro accessors (and everybody else): more samples, unmodified
-         for (int i=0; i<12; i++) {const std::vector<uint8_t> v = sample(r, r.range(1, 40), 3000, true); emitParse(out, P_CPP | P_MINI | P_MICRO | P_PY, v, true); if (i < 3) encs.push_back(v);}
+         for (int i=0; i<12; i++) {const std::vector<uint8_t> v = sample(r, r.range(1, 40), 3000, true); emitParse(out, P_CPP | P_MINI | P_MICRO | P_PY, v); if (i < 3) encs.push_back(v);}
       }
       // (iv) splices of two encodings, (v) random bytes behind a valid header, random byte flips
       const uint32_t nmix = tier.thorough ? 6000 : 500;
@@ -250,12 +240,12 @@ struct ParseEngine : public Engine
          }
          emitParse(out, P_CPP | P_MINI | ((i%4 == 0) ? P_PY : 0), t);
       }
-      // deep nesting: around the limit on every parser but micro at each shard 0; far beyond it for cpp (mini: corpus, see top)
+      // deep nesting: around the limit on every parser but micro (shard 0); far beyond it for cpp and mini
       const uint32_t lim = MUSCLE_MAX_MESSAGE_NESTING_DEPTH;
-      if (tier.shard == 0) for (uint32_t d = lim-2; d <= lim+2; d++) emitParse(out, P_CPP | P_MINI | P_PY, nested(d), true);
-      if (tier.shard == 1 % nshards) {emitParse(out, P_CPP | P_MINI | P_PY, nested(300), true); emitParse(out, P_CPP | P_MINI | P_MICRO | P_PY, nested(40), true);}
-      if (tier.shard == 2 % nshards) emitParse(out, P_CPP, nested(5000));
-      if (tier.shard == 3 % nshards) emitParse(out, P_CPP, nested(30000));
+      if (tier.shard == 0) for (uint32_t d = lim-2; d <= lim+2; d++) emitParse(out, P_CPP | P_MINI | P_PY, nested(d));
+      if (tier.shard == 1 % nshards) {emitParse(out, P_CPP | P_MINI | P_PY, nested(300)); emitParse(out, P_CPP | P_MINI | P_MICRO | P_PY, nested(40));}
+      if (tier.shard == 2 % nshards) emitParse(out, P_CPP | P_MINI, nested(5000));
+      if (tier.shard == 3 % nshards) emitParse(out, P_CPP | P_MINI, nested(30000));
       // huge declared counts in tiny buffers (the F1 / F15 shapes), all count words, plausible and absurd values
       if (tier.shard == 4 % nshards)
       {
